@@ -119,6 +119,9 @@ def hist_case(mode, text, k):
 
 def generate(rng, tier):
     thorough = tier == 'thorough'
+    # the packed codec as the Sender uses it: long texts with extension characters through a real session
+    from corr import c03
+    yield from c03.session_wire_cases(rng, thorough, packed_only=True)
     basic = [spec.BASIC[k] for k in range(128) if k != spec.ESC]
     # 1. all pairs at all alignments
     pads = range(8)
@@ -184,6 +187,8 @@ def generate(rng, tier):
 
 
 def replay(inp):
+    if inp.get('op') == 'session-wire':
+        return Case('# ' + str(inp)[:200], '', None, None, inp)
     if inp['op'] == 'hist':
         return hist_case(inp['mode'], ''.join(chr(c) for c in inp['text']), inp['k'])
     if inp['op'] == 'enc':
